@@ -73,6 +73,11 @@ def main(tier, only=None):
                            flags=CAD, timeout=3000 if thorough else 600, family="layout", desc="NM=%d" % n))
         e1.run_set(chk, "c08/layout.c", hs, workers=8, extra_src=extra)
 
+    # ---- support: the align_to specification used by the parse.c harnesses equals the real codegen.c function
+    if want("layout") or want("align_to"):
+        e1.run_set(chk, "c08/align_to.c", [e1.H("h_align_to", "align_to/spec", unwind=4, native=False, timeout=300,
+                                                family="align_to")], workers=2)
+
     # ---- (b) type-specifier multisets
     if want("declspec"):
         nt = 6 if thorough else 5
@@ -97,7 +102,12 @@ def main(tier, only=None):
     if os.environ.get("VERIF_VERBOSE"):
         for o in chk.obl:
             print("  %-40s %-12s %6.1fs %s" % (o["key"], o["status"], o["secs"], o["detail"][:100]))
+    if not only or "layout-e2" in only:
+        import c08_e2
+        c08_e2.run(chk, tier)
     return chk.finish()
 
 
-replay = vf.generic_replay
+def replay(path):
+    import e1replay
+    return e1replay.replay_with(path)
